@@ -9,7 +9,7 @@
 (* of interest is about the CODE (never "crash"), so the model's job is the     *)
 (* complete enumeration of the fault/operation space and the statement of what  *)
 (* must hold after an error (UsableAfterError).                                 *)
-EXTENDS Integers, Sequences, FiniteSets, TLC
+EXTENDS Integers, Sequences, SequencesExt, FiniteSets, TLC
 CONSTANTS MaxMut, MaxOps, Fields, Ops
 
 \* value classes per field kind
@@ -30,6 +30,9 @@ Classes(f) ==
     [] f = "many_foreign"                             -> {"chain"}        \* an index run pointing at a long chain of foreign blocks
     [] OTHER                                          -> {"flipped"}
 
+\* a fixed order on field names (TLC does not compare strings)
+FieldSeq == SetToSeq(Fields)
+Rank(f) == CHOOSE i \in 1..Len(FieldSeq) : FieldSeq[i] = f
 Mutation == { [f |-> f, c |-> c] : f \in Fields, c \in UNION { Classes(g) : g \in Fields } }
 Valid(m) == m.c \in Classes(m.f)
 
@@ -39,7 +42,7 @@ Init == muts = <<>> /\ ops = <<>> /\ phase = "mutate" /\ broken = FALSE
 
 Mutate(m) == /\ phase = "mutate" /\ Len(muts) < MaxMut /\ Valid(m)
              /\ \A i \in 1..Len(muts) : muts[i].f # m.f
-             /\ (Len(muts) > 0 => muts[Len(muts)].f < m.f)          \* sets, not sequences (canonical order)
+             /\ (Len(muts) > 0 => Rank(muts[Len(muts)].f) < Rank(m.f))   \* sets, not sequences (canonical order)
              /\ muts' = Append(muts, m) /\ UNCHANGED <<ops, phase, broken>>
 Start == phase = "mutate" /\ phase' = "run" /\ UNCHANGED <<muts, ops, broken>>
 \* any operation in any order, also after an error ("open" again re-opens the reader)
